@@ -3,6 +3,8 @@
 use crate::core::{Ctx, Report};
 
 pub mod c01;
+pub mod c02;
+pub mod c03;
 pub mod c04;
 pub mod c05;
 pub mod c06;
@@ -30,8 +32,11 @@ pub mod c26_svlex;
 pub mod c27;
 pub mod c28;
 pub mod c29;
+pub mod c30;
 pub mod c31;
 pub mod c32;
+pub mod c33;
+pub mod c34;
 pub mod c35;
 pub mod c35_guest;
 pub mod c36;
@@ -41,6 +46,14 @@ pub mod robust_worker;
 pub mod sf;
 pub mod sveq;
 
+#[path = "../e2.rs"]
+pub mod e2;
+#[path = "../gen_df.rs"]
+pub mod gen_df;
+#[path = "../simworker.rs"]
+pub mod simworker;
+#[path = "../simx.rs"]
+pub mod simx;
 #[path = "../gen_text.rs"]
 pub mod gen_text;
 #[path = "../gen_fmt.rs"]
@@ -61,6 +74,8 @@ pub type CheckFn = fn(&Ctx) -> Report;
 pub fn registry() -> Vec<(&'static str, CheckFn)> {
     vec![
         ("C01", c01::run as CheckFn),
+        ("C02", c02::run as CheckFn),
+        ("C03", c03::run as CheckFn),
         ("C04", c04::run as CheckFn),
         ("C05", c05::run as CheckFn),
         ("C06", c06::run as CheckFn),
@@ -85,8 +100,11 @@ pub fn registry() -> Vec<(&'static str, CheckFn)> {
         ("C27", c27::run as CheckFn),
         ("C28", c28::run as CheckFn),
         ("C29", c29::run as CheckFn),
+        ("C30", c30::run as CheckFn),
         ("C31", c31::run as CheckFn),
         ("C32", c32::run as CheckFn),
+        ("C33", c33::run as CheckFn),
+        ("C34", c34::run as CheckFn),
         ("C35", c35::run as CheckFn),
         ("C36", c36::run as CheckFn),
     ]
@@ -103,6 +121,8 @@ pub fn replay(path: &str) -> i32 {
     };
     match doc["property"].as_str().unwrap_or("") {
         "C01" => c01::replay(&doc),
+        "C02" => c02::replay(&doc),
+        "C03" => c03::replay(&doc),
         "C04" => c04::replay(&doc),
         "C06" => c06::replay(&doc),
         "C08" => c08::replay(&doc),
@@ -125,6 +145,7 @@ pub fn replay(path: &str) -> i32 {
         "C26" => c26::replay(&doc),
         "C27" => c27::replay(&doc),
         "C28" => c28::replay(&doc),
+        "C30" => c30::replay(&doc),
         "C31" => c31::replay(&doc),
         "C32" => c32::replay(&doc),
         "C36" => c36::replay(&doc),
@@ -139,6 +160,7 @@ pub fn replay(path: &str) -> i32 {
 pub fn worker(args: &[String]) -> i32 {
     match args.first().map(|x| x.as_str()) {
         Some("c31") => c31::worker(&args[1..]),
+        Some("sim") => simworker::main(&args[1..]),
         Some("synth-probe") => c19::probe(&args[1..]),
         Some(kind @ ("parse" | "full" | "multi")) => {
             let (Some(inp), Some(outp)) = (args.get(1), args.get(2)) else {
